@@ -28,10 +28,14 @@ Definition bytes_str (l : list N) : string :=
 Record obsq := mkObs { o_val : Q; o_var : option Q; o_mult : Q; o_dims : dims; o_dtype : string }.
 Inductive sobs := SOk (iso : string) (fs : list (option obsq)) | SErr (cls : string).
 Inductive aobs := AOk (iso : string) (z : Z) (w m : option obsq) | AErr (cls : string).
-Inductive lcase :=
-| CScat (name : string) (ascii : bool) (o : sobs)
-| CAtom (name : string) (ascii : bool) (o : aobs)
-| CElem (name : string) (o : option string).     (* _parse_isotope_name: group, None = TypeError *)
+Inductive eobs := ESkip | EGroup (g : option string).   (* _parse_isotope_name: group, None = TypeError *)
+(* one query name, asked of the three entry points *)
+Inductive lcase := L (name : string) (ascii : bool) (s : sobs) (a : aobs) (e : eobs).
+(* abbreviations for the frequent observations (keeps the generated case files small) *)
+Definition sVE := SErr "ValueError".
+Definition aVE := AErr "ValueError".
+Definition aTE := AErr "TypeError".
+Definition eN := EGroup None.
 
 (* unit names as scipp resolves them on this installation (from the harness) *)
 Definition unit_table := list (string * (Q * dims)).
@@ -93,36 +97,50 @@ Fixpoint check_fields (ut : unit_table) (i : nat) (ms : list (option scalar)) (o
   | _, _ => "field-count"
   end.
 
+Definition check_scat (ut : unit_table) (name : string) (ascii : bool) (o : sobs) : string :=
+  match scat_lookup name, o with
+  | Ok p, SOk iso fs =>
+      if negb ascii then "accepted-non-ascii"
+      else if negb (String.eqb iso name && String.eqb (sc_isotope p) name) then "isotope-attribute"
+      else check_fields ut 0 (sc_fields p) fs
+  | Err e, SErr cls =>
+      if negb ascii then "" else if String.eqb (err_name e) cls then ""
+      else "error-class:model=" ++ err_name e ++ ",impl=" ++ cls
+  | Ok _, SErr cls => "impl-raises-" ++ cls ++ "-for-a-table-name"
+  | Err _, SOk _ _ => "impl-accepts-unknown-name"
+  end.
+Definition check_atom (ut : unit_table) (name : string) (ascii : bool) (o : aobs) : string :=
+  match atom_lookup name, o with
+  | Ok a, AOk iso z w m =>
+      if negb ascii then "accepted-non-ascii"
+      else if negb (String.eqb iso name && String.eqb (a_isotope a) name) then "isotope-attribute"
+      else if negb (Z.eqb (Z.of_N (a_z a)) z) then "z"
+      else let r := check_scalar ut (a_weight a) w in
+           if negb (String.eqb r "") then "weight-" ++ r
+           else let r := check_scalar ut (a_mass a) m in
+                if negb (String.eqb r "") then "mass-" ++ r else ""
+  | Err e, AErr cls =>
+      if negb ascii then "" else if String.eqb (err_name e) cls then ""
+      else "error-class:model=" ++ err_name e ++ ",impl=" ++ cls
+  | Ok _, AErr cls => "impl-raises-" ++ cls ++ "-for-a-table-name"
+  | Err _, AOk _ _ _ _ => "impl-accepts-unknown-name"
+  end.
+Definition check_elem (name : string) (ascii : bool) (o : eobs) : string :=
+  match o with
+  | ESkip => ""
+  | EGroup g => if negb ascii then ""
+                else if opt_eqb String.eqb (parse_isotope_name name) g then "" else "element-symbol"
+  end.
+(* "" = all three agree; otherwise "<api>|<reason>" of the first disagreement *)
 Definition check_lookup (ut : unit_table) (c : lcase) : string :=
   match c with
-  | CScat name ascii o =>
-      match scat_lookup name, o with
-      | Ok p, SOk iso fs =>
-          if negb ascii then "accepted-non-ascii"
-          else if negb (String.eqb iso name && String.eqb (sc_isotope p) name) then "isotope-attribute"
-          else check_fields ut 0 (sc_fields p) fs
-      | Err e, SErr cls =>
-          if negb ascii then "" else if String.eqb (err_name e) cls then "" else "error-class:model=" ++ err_name e ++ ",impl=" ++ cls
-      | Ok _, SErr cls => "impl-raises-" ++ cls ++ "-for-a-table-name"
-      | Err _, SOk _ _ => "impl-accepts-unknown-name"
-      end
-  | CAtom name ascii o =>
-      match atom_lookup name, o with
-      | Ok a, AOk iso z w m =>
-          if negb ascii then "accepted-non-ascii"
-          else if negb (String.eqb iso name && String.eqb (a_isotope a) name) then "isotope-attribute"
-          else if negb (Z.eqb (Z.of_N (a_z a)) z) then "z"
-          else let r := check_scalar ut (a_weight a) w in
-               if negb (String.eqb r "") then "weight-" ++ r
-               else let r := check_scalar ut (a_mass a) m in
-                    if negb (String.eqb r "") then "mass-" ++ r else ""
-      | Err e, AErr cls =>
-          if negb ascii then "" else if String.eqb (err_name e) cls then "" else "error-class:model=" ++ err_name e ++ ",impl=" ++ cls
-      | Ok _, AErr cls => "impl-raises-" ++ cls ++ "-for-a-table-name"
-      | Err _, AOk _ _ _ _ => "impl-accepts-unknown-name"
-      end
-  | CElem name o =>
-      if opt_eqb String.eqb (parse_isotope_name name) o then "" else "element-symbol"
+  | L name ascii s a e =>
+      let r := check_scat ut name ascii s in
+      if negb (String.eqb r "") then "scat|" ++ r
+      else let r := check_atom ut name ascii a in
+           if negb (String.eqb r "") then "atom|" ++ r
+           else let r := check_elem name ascii e in
+                if negb (String.eqb r "") then "elem|" ++ r else ""
   end.
 
 (* ---------- attenuation: the regenerated function at exact rationals *)
